@@ -1,5 +1,229 @@
-"""Kani runner (filled in later)."""
+"""Kani runner: the real crate (scratch copy of the working tree) + cfg(kani) harness modules appended as child modules.
+
+Nothing in the copied sources is deleted or rewritten: one line
+    #[cfg(kani)] #[path = "/verif/kani/<m>.rs"] mod verif_kani_<m>;
+is appended to each target source file.  With cfg(kani) off the overlay is inert.
+
+Harness descriptors (specs/<ID>/property.json -> "kani": [...]):
+  harness      name of the #[kani::proof] function
+  module       file under /verif/kani/
+  inject_into  source file of /repo the module becomes a child of
+  tier         quick | thorough
+  bound        text: the bound of this stand-in (always reported; bounded units never count as proved)
+  strength     'bounded' (default) | 'complete-loop-free'
+  features     cargo features to enable (e.g. ["ndarray-bindings"])
+  timeout_s    default 600
+  fn           function under test (for reports)
+"""
+import concurrent.futures as cf
+import hashlib
+import json
+import os
+import re
+import shutil
+import subprocess
+import time
+
+KANI_DIR = 'kani'
 
 
-def run_property(pid, cfg, tier, repo, work, here):
-    return []
+def prepare_copy(repo, work, modules, here):
+    dst = os.path.join(work, 'kani-repo')
+    if os.path.exists(dst):
+        shutil.rmtree(dst)
+    os.makedirs(dst)
+    for item in ('src', 'benches', 'Cargo.toml', 'Cargo.lock'):
+        s = os.path.join(repo, item)
+        if os.path.isdir(s):
+            shutil.copytree(s, os.path.join(dst, item))
+        elif os.path.exists(s):
+            shutil.copy(s, os.path.join(dst, item))
+    os.makedirs(os.path.join(dst, '.cargo'), exist_ok=True)
+    open(os.path.join(dst, '.cargo', 'config.toml'), 'w').write('[net]\noffline = true\n')
+    done = set()
+    for (module, inject) in modules:
+        if (module, inject) in done:
+            continue
+        done.add((module, inject))
+        tgt = os.path.join(dst, inject)
+        if not os.path.exists(tgt):
+            return dst, 'lost anchor: %s missing' % inject
+        modname = 'verif_kani_' + re.sub(r'\W', '_', os.path.splitext(os.path.basename(module))[0])
+        with open(tgt, 'a') as f:
+            f.write('\n#[cfg(kani)]\n#[path = "%s"]\nmod %s;\n' % (os.path.join(here, KANI_DIR, module), modname))
+    return dst, None
+
+
+_RES = re.compile(r'VERIFICATION:- (SUCCESSFUL|FAILED)')
+_SUMMARY = re.compile(r'\*\* (\d+) of (\d+) failed')
+_COVER = re.compile(r'\*\* (\d+) of (\d+) cover properties satisfied')
+_FAILED_CHECK = re.compile(r'^Failed Checks: (.*)$', re.M)
+
+
+def run_harness(copy, h, jobs_env, extra_args=()):
+    cmd = ['cargo', 'kani', '-Z', 'stubbing', '-Z', 'function-contracts', '-Z', 'concrete-playback', '--concrete-playback=print',
+           '--harness', h['harness']]
+    if h.get('features'):
+        cmd += ['--features', ','.join(h['features'])]
+    cmd += list(extra_args)
+    if h.get('kani_args'):
+        cmd += list(h['kani_args'])
+    env = dict(os.environ)
+    env['CARGO_NET_OFFLINE'] = 'true'
+    env.update(jobs_env)
+    t0 = time.time()
+    timeout = int(h.get('timeout_s', 600))
+    mem_kb = int(h.get('mem_gb', 20)) * 1024 * 1024
+    try:
+        p = subprocess.run(['bash', '-c', 'ulimit -v %d; exec "$@"' % mem_kb, 'bash'] + cmd, cwd=copy, env=env,
+                           stdout=subprocess.PIPE, stderr=subprocess.STDOUT, timeout=timeout, universal_newlines=True)
+        out, rc = p.stdout, p.returncode
+    except subprocess.TimeoutExpired as e:
+        out = (e.stdout or '') if isinstance(e.stdout, str) else ((e.stdout or b'').decode('utf8', 'replace'))
+        out += '\n<<timeout after %ds>>' % timeout
+        rc = 124
+        subprocess.run(['pkill', '-f', copy], stdout=subprocess.DEVNULL, stderr=subprocess.DEVNULL)
+    return cmd, rc, out, time.time() - t0
+
+
+def classify(h, cmd, rc, out, wall):
+    r = dict(harness=h['harness'], fn=h.get('fn', ''), bound=h.get('bound', ''), strength=h.get('strength', 'bounded'),
+             wall_s=round(wall, 1), status=None, reason='', checks=0, checks_ok=0, covers='', cmd=' '.join(cmd))
+    m = _SUMMARY.search(out)
+    if m:
+        r['checks'] = int(m.group(2))
+        r['checks_ok'] = int(m.group(2)) - int(m.group(1))
+    mc = _COVER.search(out)
+    if mc:
+        r['covers'] = '%s/%s' % (mc.group(1), mc.group(2))
+    res = _RES.search(out)
+    if rc == 124:
+        r.update(status='inconclusive', reason='timeout after %ss' % h.get('timeout_s', 600))
+        return r
+    if res is None:
+        tail = out[-1500:]
+        r.update(status='inconclusive', reason='kani gave no verdict (rc=%s): %s' % (rc, tail.replace('\n', ' | ')[-700:]))
+        return r
+    if res.group(1) == 'SUCCESSFUL':
+        if mc and mc.group(1) != mc.group(2):
+            r.update(status='inconclusive', reason='vacuity guard: only %s cover properties satisfied' % r['covers'])
+            return r
+        if h.get('expect_stub') and ('- Stub:' not in out and 'Stub' not in out):
+            r.update(status='inconclusive', reason='requested stub was not applied')
+            return r
+        if r['checks'] == 0:
+            r.update(status='inconclusive', reason='zero checks')
+            return r
+        r['status'] = 'pass'
+        return r
+    # FAILED
+    failed = _FAILED_CHECK.findall(out)
+    descs = [f.strip() for f in failed]
+    unwind = [d for d in descs if 'unwinding assertion' in d]
+    real = [d for d in descs if 'unwinding assertion' not in d]
+    if unwind and not real:
+        r.update(status='inconclusive', reason='unwinding assertion failed (bound too small): %s' % unwind[0])
+        return r
+    if not real:
+        # e.g. unsupported construct reached, or cover unsatisfied
+        if 'unsupported' in out.lower() or 'not currently supported' in out.lower():
+            r.update(status='inconclusive', reason='unsupported construct reached')
+            return r
+        r.update(status='inconclusive', reason='FAILED without failed checks')
+        return r
+    r['status'] = 'violation'
+    r['raw_out'] = out
+    r['failed_desc'] = '; '.join(real[:4])
+    r['failed_check'] = re.sub(r'\W+', '-', real[0])[:80].strip('-')
+    # excerpt
+    i = out.find('Failed Checks')
+    r['detail'] = out[max(0, i - 200):i + 1500]
+    return r
+
+
+_PLAYBACK_TEST = re.compile(r'```\s*\n(.*?)```', re.S)
+
+
+def playback(copy, h, here, r):
+    """Concrete playback: ask Kani for the counterexample as a unit test, put it next to the harness (scratch only),
+    and run it with `cargo kani playback` = the harness body executed natively on the REAL code with the concrete values."""
+    out = r.get('raw_out') or ''
+    m = re.search(r'(#\[test\]\s*fn (kani_concrete_playback_\w+)\(\)\s*\{.*?\n\})', out, re.S)
+    if not m:
+        return None
+    test_src, test_name = m.group(1), m.group(2)
+    vals = re.findall(r'//\s*(.*)\n\s*vec!\[([^\]]*)\]', test_src)
+    key = hashlib.sha1(test_src.encode()).hexdigest()[:12]
+    cex = dict(key=key, playback_test=test_src, values=[dict(comment=c.strip(), bytes=b.strip()) for c, b in vals][:40])
+    # write the test into a scratch module that is a sibling of the harness module
+    modfile = os.path.join(copy, 'verif_playback_%s.rs' % key)
+    # the test must live in the same module as the harness: append to a copy of the harness module
+    src_mod = os.path.join(here, KANI_DIR, h['module'])
+    scratch_mod = os.path.join(copy, 'verif_mod_%s.rs' % key)
+    open(scratch_mod, 'w').write(open(src_mod).read() + '\n' + test_src + '\n')
+    tgt = os.path.join(copy, h['inject_into'])
+    s = open(tgt).read()
+    s2 = s.replace('#[path = "%s"]' % src_mod, '#[path = "%s"]' % scratch_mod)
+    open(tgt, 'w').write(s2)
+    pcmd = ['cargo', 'kani', 'playback', '-Z', 'concrete-playback']
+    if h.get('features'):
+        pcmd += ['--features', ','.join(h['features'])]
+    pcmd += ['--', test_name]
+    env = dict(os.environ)
+    env['CARGO_NET_OFFLINE'] = 'true'
+    try:
+        p = subprocess.run(pcmd, cwd=copy, env=env, stdout=subprocess.PIPE, stderr=subprocess.STDOUT, timeout=900, universal_newlines=True)
+        pout = p.stdout
+        reproduced = ('test result: FAILED' in pout) or ('panicked at' in pout)
+    except subprocess.TimeoutExpired:
+        pout = 'playback timed out'
+        reproduced = False
+    open(tgt, 'w').write(s)
+    cex['playback_cmd'] = ' '.join(pcmd)
+    cex['playback_output_tail'] = pout[-1500:]
+    r['replayed'] = reproduced
+    return cex
+
+
+def run_property(pid, descs, tier, repo, work, here, parallel=6):
+    hs = [h for h in descs if tier == 'thorough' or h.get('tier', 'quick') == 'quick']
+    if not hs:
+        return []
+    results = []
+    # group by feature set (each needs its own build)
+    groups = {}
+    for h in hs:
+        groups.setdefault(tuple(h.get('features', [])), []).append(h)
+    for feats, group in groups.items():
+        copy, err = prepare_copy(repo, os.path.join(work, 'k-' + ('_'.join(feats) or 'default')), [(h['module'], h['inject_into']) for h in group], here)
+        if err:
+            for h in group:
+                results.append(dict(harness=h['harness'], status='inconclusive', reason=err, bound=h.get('bound', '')))
+            continue
+        # warm the build with the first harness alone, then the rest in parallel
+        first = group[0]
+        cmd, rc, out, wall = run_harness(copy, first, {})
+        r0 = classify(first, cmd, rc, out, wall)
+        rs = [r0]
+        if 'error: could not compile' in out or 'error[E' in out:
+            msg = re.findall(r'error(?:\[E\d+\])?: .*', out)[:3]
+            for h in group:
+                results.append(dict(harness=h['harness'], status='inconclusive', bound=h.get('bound', ''),
+                                    reason='harness module does not compile against this tree (signature drift?): %s' % ' / '.join(msg)))
+            continue
+        rest = group[1:]
+        if rest:
+            with cf.ThreadPoolExecutor(max_workers=parallel) as ex:
+                futs = [ex.submit(run_harness, copy, h, {}) for h in rest]
+                for h, f in zip(rest, futs):
+                    cmd, rc, out, wall = f.result()
+                    rs.append(classify(h, cmd, rc, out, wall))
+        for h, r in zip(group, rs):
+            if r['status'] == 'violation':
+                try:
+                    r['counterexample'] = playback(copy, h, here, r)
+                except Exception as e:  # noqa
+                    r['counterexample'] = None
+                    r['detail'] = r.get('detail', '') + '\n(playback failed: %s)' % e
+        results.extend(rs)
+    return results
